@@ -219,6 +219,7 @@ Inductive dmop :=
 | DDelete (n : Z)
 | DRename (n m : Z)
 | DPubns (n : Z) (pub : list Z)
+| DPubnsM (l : list (Z * list Z))   (* one batch into core.Dataset with the meta entities of several datasets *)
 | DPost (n : Z) (start : bool) (fsid : Z) (fin : bool) (es : list went).   (* POST /datasets/n/entities *)
 
 Definition set_reg (n : Z) (r : dsrec) (s : dmstate) : dmstate :=
@@ -321,6 +322,10 @@ Definition dm_step (fl : rflags) (o : dmop) (s : dmstate) : dmstate * res :=
   | DDelete n => dm_delete n s
   | DRename n m => dm_rename n m s
   | DPubns n pub => dm_pubns n pub s
+  | DPubnsM l =>
+    if forallb (fun p : Z * list Z => amem (fst p) (m_reg s)) l
+    then (fold_left (fun s (p : Z * list Z) => fst (dm_pubns (fst p) (snd p) s)) l s, ROk)
+    else (s, RErr)
   | DPost n start fsid fin es => dm_post fl n start fsid fin es s
   end.
 
@@ -345,9 +350,13 @@ Definition dm_init : dmstate :=
 
 (** ** Jobs.  Configurations, continuation tokens and last-run results live in the store only;
     memory holds the cron entries of the jobs that are not paused. *)
-Record jobcfg := { j_paused : bool; j_src : Z; j_sink : Z; j_delay : option Z }.   (* retryDelay of a reRun handler *)
+(** [j_trig]: -1 = a cron trigger; n >= 0 = an onchange trigger monitoring dataset n (the job then runs whenever
+    "dataset.<n>" is emitted: by a POST to n, or by a job that wrote to n while n was not in a full sync) *)
+Record jobcfg := { j_paused : bool; j_src : Z; j_sink : Z; j_delay : option Z; (* retryDelay of a reRun handler *)
+                   j_trig : Z }.
 Record jobstate := {
-  m_sched : list (Z * bool);          (* Runner.scheduledJobs: true = the job has cron entries *)
+  m_sched : list (Z * bool);          (* Runner.scheduledJobs / event-bus handlers: true = the job has cron entries
+                                         or a dataset subscription *)
   d_jcfg : list (Z * jobcfg);         (* JobConfigIndex *)
   d_jtok : list (Z * Z);              (* JobDataIndex: SyncJobState.ContinuationToken *)
   d_jhist : list (Z * (bool * Z))     (* JobResultIndex: failed?, processed *)
@@ -360,8 +369,11 @@ Definition rescale (d : Z) : Z := wrap64 (1000000000 * (if Z.eqb d 0 then 30 els
 Definition verify_cfg (dm : delay_mode) (c : jobcfg) : jobcfg :=
   match dm with
   | DelayStable => c
-  | DelayRescale => {| j_paused := j_paused c; j_src := j_src c; j_sink := j_sink c;
-                       j_delay := option_map rescale (j_delay c) |}
+  | DelayRescale =>
+    (* verify returns at an onchange trigger with a monitored dataset, before it reaches the error handlers *)
+    if 0 <=? j_trig c then c
+    else {| j_paused := j_paused c; j_src := j_src c; j_sink := j_sink c;
+            j_delay := option_map rescale (j_delay c); j_trig := j_trig c |}
   end.
 
 (** AddJob: verify (mutates), StoreObject, clearCrontab, schedule unless paused *)
@@ -475,7 +487,7 @@ Definition job_step (fl : rflags) (o : jobop) (h : hub) : hub * res :=
     match assoc j (d_jcfg js) with
     | None => (h, RErr)
     | Some c => (with_job h (job_add (f_delay fl) j {| j_paused := p; j_src := j_src c; j_sink := j_sink c;
-                                                        j_delay := j_delay c |} js), ROk)
+                                                        j_delay := j_delay c; j_trig := j_trig c |} js), ROk)
     end
   | JDelete j =>
     (* LoadJob, Runner.deleteJob: the configuration object and the cron entries go; token and result stay *)
@@ -483,6 +495,57 @@ Definition job_step (fl : rflags) (o : jobop) (h : hub) : hub * res :=
                    d_jhist := d_jhist js |}, ROk)
   | JRun j => job_run fl j h
   end.
+
+(** the jobs whose dataset subscription fires on "dataset.<n>" (ascending job ids) *)
+Definition subscribers (js : jobstate) (n : Z) : list Z :=
+  flat_map (fun p : Z * bool =>
+              if snd p then match assoc (fst p) (d_jcfg js) with
+                            | Some c => if Z.eqb (j_trig c) n then [fst p] else []
+                            | None => []
+                            end
+              else []) (m_sched js).
+
+(** the subscriptions a run of job [j] fires: datasetSink.processEntities emits "dataset.<sink>" after a successful
+    write unless the sink is in a full sync *)
+Definition job_emits (fl : rflags) (j : Z) (h : hub) : list Z :=
+  let js := h_job h in
+  let dm := h_dm h in
+  match assoc j (d_jcfg js) with
+  | None => []
+  | Some c =>
+    match usable dm (j_src c) with
+    | None => []
+    | Some rs =>
+      let since := match assoc j (d_jtok js) with Some t => t | None => 0 end in
+      match fst (changes (get_ds (d_data dm) (r_id rs)) since 0 false) with
+      | [] => []
+      | _ => match usable dm (j_sink c) with
+             | None => []
+             | Some rk => if amem (r_id rk) (m_fs dm) then [] else subscribers js (j_sink c)
+             end
+      end
+    end
+  end.
+
+Fixpoint ins_dup (k : Z) (l : list Z) : list Z :=
+  match l with [] => [k] | x :: l' => if k <? x then k :: l else x :: ins_dup k l' end.
+Definition sortz (l : list Z) : list Z := fold_right ins_dup [] l.
+
+(** event-triggered runs, delivered one at a time: the jobs triggered by one op run in job-id order; the jobs they
+    trigger form the next round (at most [fuel] rounds) *)
+Fixpoint drain (fl : rflags) (fuel : nat) (batch : list Z) (h : hub) : hub :=
+  match fuel with
+  | O => h
+  | S fuel' =>
+    match batch with
+    | [] => h
+    | _ =>
+      let r := fold_left (fun (a : hub * list Z) j => (fst (job_run fl j (fst a)), snd a ++ job_emits fl j (fst a)))
+                         (sortz batch) (h, []) in
+      drain fl fuel' (snd r) (fst r)
+    end
+  end.
+Definition drain_rounds : nat := 30.
 
 (** DatahubInstance.Stop + NewDatahubInstance on the same directories *)
 Definition reopen (fl : rflags) (crash : bool) (h : hub) : hub :=
@@ -502,11 +565,25 @@ Definition step (fl : rflags) (h : hub) (o : hop) : hub * res :=
   | HRestart crash => (reopen fl crash h, ROk)
   end.
 
+(** the subscriptions an op fires: a POST that succeeded emits "dataset.<n>" (the handler does, after
+    processEntities); a manual job run emits through its sink *)
+Definition op_emits (fl : rflags) (h : hub) (o : hop) (h1 : hub) (r : res) : list Z :=
+  match o with
+  | HDm (DPost n _ _ _ _) => match r with ROk => subscribers (h_job h1) n | _ => [] end
+  | HJob (JRun j) => job_emits fl j h
+  | _ => []
+  end.
+
+(** an op followed by the event-triggered runs it causes, up to quiescence *)
+Definition stepd (fl : rflags) (h : hub) (o : hop) : hub * res :=
+  let hr := step fl h o in
+  (drain fl drain_rounds (op_emits fl h o (fst hr) (snd hr)) (fst hr), snd hr).
+
 Fixpoint run (fl : rflags) (ops : list hop) (h : hub) : hub * list res :=
   match ops with
   | [] => (h, [])
   | o :: ops' =>
-    let '(h1, r) := step fl h o in
+    let '(h1, r) := stepd fl h o in
     let '(h2, rs) := run fl ops' h1 in
     (h2, r :: rs)
   end.
@@ -561,7 +638,7 @@ Definition obs (clients : list string) (h : hub) : snap :=
     map (fun p : Z * jobcfg =>
            [fst p; bz (j_paused (snd p)); j_src (snd p); j_sink (snd p);
             match j_delay (snd p) with Some _ => 1 | None => 0 end;
-            match j_delay (snd p) with Some d => d | None => 0 end]) (d_jcfg js);
+            match j_delay (snd p) with Some d => d | None => 0 end; j_trig (snd p)]) (d_jcfg js);
     map (fun p : Z * Z => [fst p; snd p]) (d_jtok js);
     [map fst (filter (fun p : Z * bool => snd p) (m_sched js))];
     map (fun p : Z * (bool * Z) => [fst p; bz (fst (snd p)); snd (snd p)]) (d_jhist js);
